@@ -44,6 +44,19 @@ TfClass(cfg, f) ==
     [] f.ty = "msg" -> "none"
     [] OTHER -> ""
 
+\* the Go base type of the field's scalar (what the value range of C19 depends on)
+GoBaseType(cfg, f) ==
+  CASE IsTime(f) -> "time"
+    [] IsDuration(cfg, f) -> "duration"
+    [] f.ty = "double" -> "float64"
+    [] f.ty = "float" -> "float32"
+    [] f.ty \in {"int64", "sfixed64", "sint64"} -> "int64"
+    [] f.ty \in {"uint64", "fixed64"} -> "uint64"
+    [] f.ty \in {"int32", "sfixed32", "sint32"} -> "int32"
+    [] f.ty \in {"uint32", "fixed32"} -> "uint32"
+    [] f.ty = "enum" -> "enum"
+    [] OTHER -> f.ty
+
 HasZeroLit(cls) == cls \in {"int", "float", "bool", "string", "bytes", "enum"}
 
 \* pointer in the Go type: messages unless nullable=false; std time / duration unless nullable=false
@@ -77,7 +90,7 @@ BF(name, attr, kind, cls, nullable, path) ==
   [name |-> name, attr |-> attr, kind |-> kind, cls |-> cls, tfty |-> TfTyOf(cls), zero |-> HasZeroLit(cls),
    nullable |-> nullable, oneof |-> "", embed |-> "", placeholder |-> FALSE, path |-> path, msg |-> NoMsg,
    required |-> FALSE, computed |-> FALSE, sensitive |-> FALSE, validators |-> <<>>, planmods |-> <<>>,
-   desc |-> <<>>, suffix |-> "", gopath |-> <<name>>, proto |-> name, tn |-> "", fixeddesc |-> "", pzero |-> Nil, pmixed |-> FALSE]
+   desc |-> <<>>, suffix |-> "", gopath |-> <<name>>, proto |-> name, tn |-> "", fixeddesc |-> "", pzero |-> Nil, pmixed |-> FALSE, goty |-> "", rep |-> FALSE]
 
 PlaceholderDesc == "Automatically generated field preventing empty message errors"
 
@@ -163,6 +176,8 @@ BuildField(q, d, cfg, m, mpath, i, fuel) ==
                  !.desc = f.comment,
                  !.proto = f.name,
                  !.tn = tn,
+                 !.goty = GoBaseType(cfg, f),
+                 !.rep = f.card = "rep",
                  !.oneof = IF f.oneof = "" THEN "" ELSE GoName(f.oneof)]
       iscustom == f.custom # "" \/ KVHas(cfg.customtypes, path)
       custom(F) == IF iscustom THEN [F EXCEPT !.kind = "custom", !.suffix = SuffixOf(cfg, CustomTypeOf(cfg, f, path))] ELSE F
